@@ -11,6 +11,12 @@ def hooks_commits():
         return []
 
 CHECKS = {
+ "C03": ("lattice", "exploration", "exhaustive enumeration of all cell pairs of a face (planar clipping) + exhaustive containing-cell search for lattice points",
+         "For every resolution up to the bound: all same-face cell pairs clipped in the plane, interior points of every cell searched in all cells of the three nearest faces, every lattice point searched exhaustively (>=1 cell within the band, <=1 strictly), signed areas telescoping to 4 pi; at fine resolutions two-ring neighbourhoods found by lookup.",
+         "Cross-face containment goes through the real forward projection (C15). No-gap verdict is for lattice points; the measure identity bounds the rest.", "4 C03"),
+ "C17": ("hilbert-automaton", "model_checking", "exhaustive enumeration of all curve positions to a depth bound x 6 orientations + explicit-state exploration of the digit-walk automaton bound by conformance",
+         "All s < 4^n (n<=9/12) for all six orientations on real outputs: pairwise distinct pentagons, centres in the quintant triangle, locating the centre returns s. The digit walk is modelled as a 16-state Mealy machine, compared bit for bit with the real s_to_anchor_internal on every position up to depth 8/10, and its pair automaton is explored for a non-injective witness, which covers every depth.",
+         "The all-depth claim rests on the model; it is made only when conformance passes (otherwise the run reports model_bound=false and decides on real outputs only).", "3.4, 5 C17"),
  "C01": ("lattice", "exploration", "exhaustive enumeration of a fixed sphere lattice x all 30 resolutions against a containment oracle",
          "Every point of a lattice built from the code's own case splits (12 faces, 30 edges, 20 vertices, sector seams, polar caps, antimeridian, every cell's vertices and edge midpoints with offsets down to 1e-9) is looked up at every resolution 0..29; the answer must be a canonical id of exactly that resolution whose planar polygon contains the point within a 4e-12 band, and for r<=12 whose reported boundary ring contains it (independent spherical test). Verdict is for the lattice, not the continuum.",
          "Trusts the reference conversions (quadrature authalic latitude) and RefPlane distance; the planar oracle shares the forward projection with the subject, the spherical oracle only the public boundary call.", "4 C01"),
@@ -91,6 +97,7 @@ def main():
             {"name": "refmodel", "path": "harness/src/checks/c05.rs", "serves_properties": ["C05"], "kind_free_text": "exhaustive tuple enumeration against an independent reference codec"},
             {"name": "graph", "path": "harness/src/checks/graph.rs", "serves_properties": ["C07", "C20"], "kind_free_text": "explicit-state BFS over the cell hierarchy through the real functions"},
             {"name": "lattice", "path": "harness/src/checks/{lookup,cells,proj,frame}.rs", "serves_properties": ["C01","C02","C04","C11","C12","C15","C16","C18","C19"], "kind_free_text": "complete enumeration of finite lattices built from the code's case splits, with reference-geometry oracles"},
+            {"name": "hilbert-automaton", "path": "harness/src/checks/hilbert.rs", "serves_properties": ["C17"], "kind_free_text": "exhaustive position enumeration + Mealy-machine model with conformance binding and pair-automaton exploration"},
             {"name": "setmachine", "path": "harness/src/checks/sets.rs", "serves_properties": ["C08", "C09", "C10"], "kind_free_text": "stateright BFS of a cell-set machine + subset and permutation enumeration"},
         ],
         "checks": checks,
